@@ -557,6 +557,9 @@ type c36Stream struct {
 	prevLimiter   string
 	prevDesc      string
 	prevEpoch     int
+	prevMember    bool   // the node bound to the address was in the consensus nodes at the previous request
+	prevHash      string // suffrage state hash reported at the previous request
+	prevNode      string // node bound to the address at the previous request
 	has           bool
 }
 
@@ -722,6 +725,20 @@ func (x *c36Run) membership(what string) {
 	fmt.Fprintf(&x.fp, "|M%s", what)
 }
 
+// setMember moves one node into / out of the consensus nodes. sameHash = the reported suffrage state hash stays
+// as it is: in production the membership function covers the suffrage nodes AND the suffrage candidates while the
+// hash is the hash of the suffrage state only (launch.rateLimiterIsInConsensusNodesFunc), so a candidate that is
+// added / removed / expires changes the membership without changing the hash.
+func (x *c36Run) setMember(node string, in, sameHash bool) {
+	x.ms.members[node] = in
+
+	if !sameHash {
+		x.newHash() // the suffrage state changes with its members
+	}
+
+	x.membership(fmt.Sprintf("%s=%v,samehash=%v", node, in, sameHash))
+}
+
 // request sends one request through RateLimitHandler.Func and judges the selection clause.
 // hint: -1 = the client-id key is absent from the context, 0 = empty id, 1..3 = c1..c3.
 func (x *c36Run) request(t ev.TB, ai, hi, hint int, reg base.Address) {
@@ -803,6 +820,29 @@ func (x *c36Run) request(t ev.TB, ai, hi, hint int, reg base.Address) {
 		x.order = append(x.order, s)
 	}
 
+	// coverage: the consensus-nodes membership of the bound node changed since the previous request of this stream
+	member := node != "" && !x.ms.err && x.ms.members[node]
+	hashNow := x.ms.hash.String()
+
+	if s.has && node != "" && node == s.prevNode && !x.ms.err && member != s.prevMember {
+		what := "joined"
+		if !member {
+			what = "left"
+		}
+
+		if s.prevType == "suffrage" {
+			what += "-with-cached-suffrage-limiter"
+		}
+
+		if hashNow == s.prevHash {
+			what += ":same-hash"
+		} else {
+			what += ":new-hash"
+		}
+
+		x.classes["consensus-nodes-"+what] = true
+	}
+
 	got := want
 
 	switch {
@@ -815,6 +855,10 @@ func (x *c36Run) request(t ev.TB, ai, hi, hint int, reg base.Address) {
 
 		switch {
 		case !s.has:
+		case res.RulesetType == "suffrage" && s.prevType == "suffrage" && node != "" && !x.ms.err && !x.ms.members[node]:
+			// the suffrage rule matches only nodes that are in the consensus nodes NOW: the limiter cached while
+			// the node was one of them is still used after the node left
+			sig = "cached-suffrage-limiter-after-leaving"
 		case res.RulesetType != s.prevType:
 		case want.Typ != s.prevType:
 			// the limiter cached for this (addr, handler) keeps its rule kind although another kind now has precedence
@@ -832,13 +876,14 @@ func (x *c36Run) request(t ev.TB, ai, hi, hint int, reg base.Address) {
 		x.classes["tainted"] = true
 
 		r.Violation(t, sig,
-			"request #%d addr=%s handler=%s client-id=%q node=%q: limiter used = type %q limiter %q desc %q; the statement selects %s. previous request on this (addr,handler): type %q limiter %q (rule sets / membership / node changed since: %v). rules: %s; initial rules: %s",
+			"request #%d addr=%s handler=%s client-id=%q node=%q: limiter used = type %q limiter %q desc %q; the statement selects %s. previous request on this (addr,handler): type %q limiter %q (rule sets / membership / node changed since: %v; node in the consensus nodes now: %v, at the previous request: %v; suffrage state hash changed since: %v). rules: %s; initial rules: %s",
 			len(s.events), addr, handler, clientID, node, res.RulesetType, res.Limiter, res.RulesetDesc, want,
-			s.prevType, s.prevLimiter, s.prevEpoch != x.epoch, x.cfgDesc, x.initial)
+			s.prevType, s.prevLimiter, s.prevEpoch != x.epoch, member, s.prevMember, s.has && hashNow != s.prevHash, x.cfgDesc, x.initial)
 	}
 
 	s.has = true
 	s.prevType, s.prevLimiter, s.prevDesc, s.prevEpoch = res.RulesetType, res.Limiter, res.RulesetDesc, x.epoch
+	s.prevMember, s.prevHash, s.prevNode = member, hashNow, node
 
 	s.events = append(s.events, c36Event{
 		t0: t0, t1: t1, allowed: allowed, match: got, desc: desc,
@@ -904,8 +949,9 @@ func TestC36(t *testing.T) {
 	r.Rule("rule sets drawn per kind (client-id map for c1/c2, 0..3 ordered possibly overlapping CIDRs, node map for n1/n2, suffrage map + membership function, " +
 		"default map with/without default entry), rules {nolimit, 0, burst 1..4 per unique duration}, each set built by constructor or decoded from JSON; " +
 		"40 (quick) / 60 steps: requests through RateLimitHandler.Func (handler name, client id absent/empty/c1..c3 in constant, alternating or random pattern, " +
-		"6 UDP addresses, node registration through the challenged-node context value), rule-set updates, membership / suffrage-state changes, 1-3 ms sleeps; " +
-		"plus 5 directed scenarios (precedence ladder, client-id change, client-id after net, decoded suffrage update, alternating client id). " +
+		"6 UDP addresses, node registration through the challenged-node context value), rule-set updates, consensus-nodes membership changes with a new or the SAME suffrage state hash " +
+		"(suffrage node vs. candidate; mostly of the node bound to the focus address), hash-only changes, membership-lookup errors, 1-3 ms sleeps; " +
+		"plus 9 directed scenarios (precedence ladder, client-id change, client-id after net, decoded suffrage update, alternating client id, bound node leaving/joining the consensus nodes x same/new hash). " +
 		"Oracle (a) every request: RateLimiterResult (ruleset type, limiter, desc) = the statement's precedence on the current rule sets; " +
 		"(b) per (addr, handler, selected rule) between configuration changes: allowed(window) <= burst + rate*window + 1 on the real clock, reject-all allows none, unlimited rejects none. " +
 		"non-trivial: some request of the case matches >= 2 of {clientid, net, node, suffrage, default map}; distinct by (rule sets, step sequence)")
@@ -914,6 +960,7 @@ func TestC36(t *testing.T) {
 		"RulesetType vocabulary clientid/net/node/suffrage/defaultmap/default names the six rule kinds of the statement; the built-in default is 33 per 3s",
 		"'first matching network rule': when the first configured net containing the address has no rule for the handler, both readings (stop there / try the next net) are accepted",
 		"a node is attached to an address by the first successful node challenge from that address (AddNode keeps the first)",
+		"'in the consensus nodes' is what IsInConsensusNodesFunc's membership function says at the time of the request; the state hash it reports is the hash of the suffrage state only, so the membership (suffrage nodes + candidates) can change while the hash stays (launch.rateLimiterIsInConsensusNodesFunc)",
 		"the enforcement clause is judged per selected rule between configuration changes (an operator's update may legitimately restart a limiter)",
 		"the limiter clock (x/time/rate, time.Now) cannot be controlled: the rate bound is one-sided on the real clock, +1 request of slack",
 	)
@@ -1021,6 +1068,35 @@ func TestC36(t *testing.T) {
 
 			x.finish(t, map[string]any{"scenario": "alternating-client-id"})
 		}
+
+		// 6. an address bound to a node; the node leaves / joins the consensus nodes with the same suffrage state
+		// hash (a candidate comes or goes) or with a new one (the suffrage changed); requests go on on the same
+		// (addr, handler): the suffrage rule is selected exactly while the node is in the consensus nodes
+		for _, startIn := range []bool{true, false} {
+			for _, sameHash := range []bool{true, false} {
+				cfg := base()
+				cfg.Suffrage = c36DefaultOnly(slow(3, 1))
+
+				x := c36NewRun(t, r, w, cfg, map[string]bool{n1.String(): startIn})
+				x.request(t, 0, 0, -1, n1) // binds 10.0.0.1:4001 to n1
+
+				in := startIn
+				for phase := 0; phase < 3; phase++ {
+					for i := 0; i < 3; i++ {
+						x.request(t, 0, 0, -1, nil)
+					}
+
+					in = !in
+					x.setMember(n1.String(), in, sameHash)
+				}
+
+				for i := 0; i < 3; i++ {
+					x.request(t, 0, 0, -1, nil)
+				}
+
+				x.finish(t, map[string]any{"scenario": fmt.Sprintf("consensus-nodes-membership start-in=%v same-hash=%v", startIn, sameHash)})
+			}
+		}
 	})
 
 	// ---- B. random rule sets and streams
@@ -1060,7 +1136,7 @@ func TestC36(t *testing.T) {
 
 				continue
 			case op >= 88: // membership / suffrage state
-				switch rapid.IntRange(0, 3).Draw(rt, "memberOp") {
+				switch rapid.IntRange(0, 5).Draw(rt, "memberOp") {
 				case 0:
 					x.ms.err = !x.ms.err
 					x.membership(fmt.Sprintf("err=%v", x.ms.err))
@@ -1068,10 +1144,14 @@ func TestC36(t *testing.T) {
 					x.newHash()
 					x.membership("hash")
 				default:
+					// a node joins / leaves the consensus nodes: a suffrage node (the suffrage state and its hash
+					// change) or a candidate (same hash); mostly the node bound to the focus address, if any
 					n := rapid.SampledFrom(w.nodes).Draw(rt, "memberNode").String()
-					x.ms.members[n] = !x.ms.members[n]
-					x.newHash() // the suffrage state changes with its members
-					x.membership(fmt.Sprintf("%s=%v", n, x.ms.members[n]))
+					if bound := x.nodeOf[w.addrs[focusAddr].String()]; bound != "" && rapid.IntRange(0, 3).Draw(rt, "memberOfFocus") > 0 {
+						n = bound
+					}
+
+					x.setMember(n, !x.ms.members[n], rapid.Bool().Draw(rt, "sameHash"))
 				}
 
 				continue
